@@ -52,6 +52,19 @@ CLAIMED["C11"] = dict(
          "numeric and not decided.",
     note="Trusted: clang, AST export, sympy normal forms, real-arithmetic idealisation; premise a^2 = gamma P/rho as computed by solve().")
 
+CLAIMED["C05"] = dict(
+    level="proof", design="3/C05",
+    technique="static analysis: decision-tree extraction of both solvers' loop-free code with component-free vector algebra, "
+              "computer-algebra proof of mirror, Galilean and textbook-HLLC identities regime by regime",
+    text="Proves as identities over all real inputs: every left/right twin sampler and every flux regime of both solvers is the mirror "
+         "image of its twin (swap states + reverse normal negates all five flux components); HLLC vacuum samplers are true fans and "
+         "equal the exact ones at x/t=0; the HLLC star-region flux is F_K + S_K (U*_K - U_K) with the textbook star state for the "
+         "solver's own wave speeds; the coded contact speed equalises the star pressures (so the flux is continuous when the contact "
+         "crosses the face); upwind arms return the analytic flux; identical states give S* = v; both flux functions transform as a "
+         "Galilean boost. Finiteness for extreme inputs, round-off and the 1.5-sound-speed clause are not decided.",
+    note="Trusted: clang, AST export, sympy polynomial arithmetic; the exact solver's iteration is an uninterpreted mirror-equivariant "
+         "function; DBL_MIN regularisers set to 0 in the flux identities.")
+
 NOT_APPLICABLE = {
     "C13": "Equality with the RANLUX sequence, range [0,1) and byte-identical snapshots are facts about computed 48-bit arithmetic and library I/O; no sound static domain or on-disk reference to validate against. Its one structural clause (generator state fully dumped/restored) is decided under C09.",
     "C15": "Validity of a Voronoi tessellation and agreement of two constructions quantify over real generator sets; correctness rests on geometric predicates and flip sequences whose outcomes are runtime values; no clause has its truth in the shape of the code.",
